@@ -771,7 +771,13 @@ func (w *Worker) refresh(once bool) {
 		w.Log.Add(Event{Ev: "tick"})
 		for i := 0; i < 8 && !w.Dead; i++ {
 			w.flushOut()
-			if !w.iterate(2 * time.Millisecond) {
+			wait := 2 * time.Millisecond
+			if i == 1 {
+				// the iteration before this one (the wake-up) sent the probe; the node answers it from a goroutine of its
+				// own, which on a busy machine takes longer than 2 ms (a node that does not read never answers)
+				wait = 300 * time.Millisecond
+			}
+			if !w.iterate(wait) {
 				break
 			}
 		}
